@@ -187,3 +187,111 @@ class LineProbe:
         except Exception:  # noqa - a probe must never disturb the program
             p.errors += 1
         return None
+
+
+# --------------------------------------------------------------------------
+# threads + yield injection (sys.monitoring LINE events)
+# --------------------------------------------------------------------------
+
+class YieldInjector:
+    """While active, every LINE event inside the given code objects yields
+    the GIL with probability p (time.sleep(0)), so that Python threads running
+    those functions interleave at (almost) every line boundary instead of
+    every 5 ms.  Counts the yields it injected."""
+
+    TOOL = None
+
+    def __init__(self, funcs, seed, p=0.35):
+        import random
+        self.codes = set()
+        for f in funcs:
+            f = getattr(f, '__vf_orig__', f)
+            c = getattr(f, '__code__', None)
+            if c is not None:
+                self.codes.add(c)
+        self.rnd = random.Random(seed)
+        self.p = p
+        self.yields = 0
+        self.active = False
+
+    def _cb(self, code, line):
+        if code not in self.codes:
+            return sys.monitoring.DISABLE
+        if self.rnd.random() < self.p:
+            self.yields += 1
+            import time
+            time.sleep(0)
+        return None
+
+    def __enter__(self):
+        mon = sys.monitoring
+        for tid in (2, 5, 4, 1):
+            if mon.get_tool(tid) is None:
+                mon.use_tool_id(tid, 'vf-yield')
+                self.tid = tid
+                break
+        else:
+            self.tid = None
+            return self
+        mon.register_callback(self.tid, mon.events.LINE, self._cb)
+        for c in self.codes:
+            mon.set_local_events(self.tid, c, mon.events.LINE)
+        self.active = True
+        return self
+
+    def __exit__(self, *a):
+        if self.tid is not None:
+            mon = sys.monitoring
+            for c in self.codes:
+                mon.set_local_events(self.tid, c, 0)
+            mon.register_callback(self.tid, mon.events.LINE, None)
+            mon.free_tool_id(self.tid)
+        self.active = False
+
+
+def threaded_differential(jobs, funcs_to_interleave, seed, n_threads=4,
+                          timeout=120):
+    """jobs: list of zero-argument callables.  Runs each once serially, then
+    all of them concurrently from n_threads Python threads with yield
+    injection inside `funcs_to_interleave`.  Returns (serial, threaded,
+    injector) where the result lists hold ('ok', value) / ('exc', type name);
+    threaded entries are None if the deadline passed (inconclusive)."""
+    import threading
+
+    def run(j):
+        try:
+            return ('ok', j())
+        except Exception as e:  # noqa
+            return ('exc', type(e).__name__)
+    serial = [run(j) for j in jobs]
+    out = [None] * len(jobs)
+    nxt = [0]
+    lock = threading.Lock()
+    start = threading.Barrier(n_threads)
+
+    def worker():
+        try:
+            start.wait(timeout=10)
+        except threading.BrokenBarrierError:
+            pass
+        while True:
+            with lock:
+                i = nxt[0]
+                nxt[0] += 1
+            if i >= len(jobs):
+                return
+            out[i] = run(jobs[i])
+    inj = YieldInjector(funcs_to_interleave, seed)
+    old = sys.getswitchinterval()
+    sys.setswitchinterval(1e-5)
+    try:
+        with inj:
+            ts = [threading.Thread(target=worker, daemon=True)
+                  for _ in range(n_threads)]
+            for t in ts:
+                t.start()
+            for t in ts:
+                t.join(timeout)
+    finally:
+        sys.setswitchinterval(old)
+    return serial, out, inj
